@@ -29,6 +29,7 @@ MUT_WORDS = {'Vec', 'Angle', 'Matrix', 'list', 'dict', 'set', 'Array', 'UVAxis',
 CONTAINER_WORDS = {'list', 'dict', 'set', 'List', 'Dict', 'Set', 'Array', 'MutableMapping', '_KeyDict'}
 SHARED_OK = {'map': 'parent VMF reference is shared by design', 'vmf': 'parent VMF reference is shared by design',
              'id': 'a fresh id is allocated for the copy (C08)'}
+DERIVED_FIELDS = {('Keyvalues', '_folded_name'): '_real_name'}      # the real_name setter / __init__ compute the folded name from the name
 COPYING_CTORS = {'Vec', 'list', 'set', 'dict', 'frozenset', 'tuple', 'Angle', 'Matrix', 'Py_Vec'}
 
 COPIES = [
@@ -428,6 +429,9 @@ def analyse_copy(ctx: Any, prog: Program, modname: str, clsname: str, meth: str,
         for e, _ in srcs:
             reads |= ca.fields_read(e)
         ok = f in reads or (f in extra_ok and bool(srcs) and any(ca.fields_read(e) for e, _ in srcs))
+        # a field the constructor derives from another one (`_folded_name` from the name): carried when it is computed from that field
+        if not ok and (clsname, f) in DERIVED_FIELDS and DERIVED_FIELDS[(clsname, f)] in reads:
+            ok = True
         # a field may legitimately be fed from a *property/alias* of itself (Entity._fixup via self._fixup...)
         ctx.check('C09.P1', ok, mod, fn, f'field `{f}` of {clsname} does not reach the copy ' +
                   (f'(it is set from `{U(srcs[0][0])[:50]}` which never reads self.{f})' if srcs else '(never passed to the constructor nor assigned on the result)'),
@@ -911,8 +915,30 @@ def run(ctx: Any, prog: Program) -> None:
     if starts_from_copy and not n_left:
         ctx.check('C09.P4', True, kv, af, 'result starts as self.copy()', func='Keyvalues.__add__', text='__add__: left children copied')
 
+    # ---- P1 (root test): a blank name is a name ---------------------------------------------------------------------------------------------
+    # `"" "value"` and `"" { ... }` are legal KeyValues; only None marks a root.  Code of keyvalues.py that decides "root or named" by the
+    # truthiness of the name treats blank-named keyvalues as roots - a copy of one loses its name (and its braces on export).
+    kvm = prog.module('keyvalues')
+    n_rt = 0
+    for q_, fl_ in kvm.all_funcs().items():
+        if not q_.startswith('Keyvalues.'):
+            continue
+        for f_ in fl_:
+            me_ = f_.args.args[0].arg if f_.args.args else 'self'
+            for t_ in [x for x in walk_no_nested(f_) if isinstance(x, (ast.If, ast.IfExp, ast.While, ast.Assert))]:
+                for e_ in ast.walk(t_.test):
+                    if isinstance(e_, ast.Attribute) and e_.attr in ('_real_name', '_folded_name') and isinstance(e_.value, ast.Name) and e_.value.id == me_:
+                        par_ = kvm.parents.get(e_)
+                        n_rt += 1
+                        bare = not (isinstance(par_, ast.Compare) or isinstance(par_, ast.Call) or isinstance(par_, ast.Attribute))
+                        ctx.check('C09.P1', not bare, kvm, t_, f'{q_} tests `{U(t_.test)[:50]}`: the truth value of the name - a keyvalue named "" (legal, and exported as `""`) is taken for a root, so e.g. its copy is a '
+                                  'root: the name and the braces are gone from the export', func=q_, text=f'{q_}: root test `{U(t_.test)[:30]}` compares with None')
+    if n_rt < 3:
+        raise AnalysisError(f'P1: only {n_rt} tests on the name found in Keyvalues (is_root, export and serialise confirmed by hand)')
+
 
 MUTANTS = [
+    {'id': 'keyvalues_root_by_truthiness', 'file': 'keyvalues.py', 'find': "        return self._real_name is None\n", 'replace': "        return not self._real_name\n", 'expect': 'C09.P1', 'note': 'round 12', 'refuse_ok': True},
     {'id': 'solid_copy_group_only_same_map', 'file': 'vmf.py', 'find': "            self.hidden if keep_vis else False,\n            self.group_id,", 'replace': "            self.hidden if keep_vis else False,\n            self.group_id if vmf_file is None or vmf_file is self.map else None,", 'expect': 'C09.P1', 'note': 'round 11: carry-over conditional on the destination map'},
     {'id': 'kv_add_concatenates_own_children', 'file': 'keyvalues.py', 'find': "            copy = self.copy()\n            assert isinstance(copy._value, list)\n", 'replace': "            copy = Keyvalues.__new__(Keyvalues)\n            copy._real_name = self._real_name\n            copy._folded_name = self._folded_name\n            copy.line_num = self.line_num\n            copy._value = self._value + []\n", 'expect': 'C09.P4'},
     {'id': 'solid_copy_hands_sides_defaulted_map', 'file': 'vmf.py', 'find': "        sides = [\n            s.copy(-1, vmf_file, side_mapping)", 'replace': "        target = self.map if vmf_file is None else vmf_file\n        sides = [\n            s.copy(-1, target, side_mapping)", 'expect': 'C09.P7'},
